@@ -1,53 +1,113 @@
-"""Native replay for C09: member names that try to redirect I/O, on the real functions."""
+"""Native replay for C09: member names / member kinds that try to redirect I/O, on the real functions and on real archives.
+
+`find` runs (a) function-level checks of the 7z read-back loop, `_safe_join` and the skip rule, (b) the archive-level probes of
+`replay/C09_probe.py` (hostile ZIP / TAR / 7z corpus under a file-system observer, temp dir lifetime under every consumer history,
+skip rules in every format, oversize members).  The obligation that asked for the replay only decides which probe runs first."""
 import os
 import sys
 import tempfile
 
 sys.path.insert(0, os.path.dirname(os.path.abspath(__file__)))
 
+NAMES = ("/etc/passwd", "../x", "a/../../x", "..", "a/../..", "\\\\x", "C:\\x", "a/b", "", ".", "a/./b", "a//b", "..\\x.txt", "..\\..\\x.txt",
+         "a\\..\\..\\..\\x.txt", "..\\../x.txt", "a/..\\..\\x", "~/x", "a/../b", "./../x", "a/b/../../../x", "\\x", "//x", "x" * 300)
 
-def find(req):
+
+def _real_inside(base, r):
+    rb = os.path.realpath(os.path.abspath(base))
+    rr = os.path.realpath(os.path.abspath(r))
+    return rr == rb or rr.startswith(rb + os.sep)
+
+
+def function_level():
     from sharepoint2text.parsing.extractors import archive_extractor as ae
     from sharepoint2text.parsing.extractors.util import sevenzip
     with tempfile.TemporaryDirectory() as host, tempfile.TemporaryDirectory() as temp_dir:
         canary = os.path.join(host, "canary.txt")
-        open(canary, "w").write("HOST-SECRET-CONTENT")
+        with open(canary, "w") as fh:
+            fh.write("HOST-SECRET-CONTENT")
         rel = os.path.relpath(canary, temp_dir)
-        for name in (canary, rel, "sub/../" + rel):
-            try:
-                res = list(ae._process_7z_files_sequential([(None, name, "canary.txt")], temp_dir, "a.7z"))
-            except Exception as e:  # noqa
-                res = []
-            for r in res:
-                if "HOST-SECRET-CONTENT" in r.get_full_text():
+        seq = getattr(ae, "_process_7z_files_sequential", None)
+        if seq is not None:
+            for name in (canary, rel, "sub/../" + rel, "/" + canary, rel.replace("/", "\\"), "..\\" + rel):
+                try:
+                    res = list(seq([(None, name, "canary.txt")], temp_dir, "a.7z"))
+                except Exception as e:  # noqa   the read-back loop handles every per-member failure itself
                     return {"reproduced": True, "target": "archive_extractor.py::_process_7z_files_sequential",
-                            "inputs": {"member_name": name, "temp_dir": "<private temp dir>", "host_file": "<file outside it>"},
-                            "expected": "no content of a host file outside the private temporary directory appears in results",
-                            "observed": "result text = content of the host file"}
+                            "inputs": {"member_name": name, "temp_dir": "<private temp dir>"},
+                            "expected": "no exception leaves the read-back loop", "observed": f"{type(e).__name__}: {e}"}
+                for r in res:
+                    if "HOST-SECRET-CONTENT" in r.get_full_text():
+                        return {"reproduced": True, "target": "archive_extractor.py::_process_7z_files_sequential",
+                                "inputs": {"member_name": name, "temp_dir": "<private temp dir>", "host_file": "<file outside it>"},
+                                "expected": "no content of a host file outside the private temporary directory appears in results",
+                                "observed": "result text = content of the host file"}
         # _safe_join on a hostile name grammar
-        base = temp_dir
-        for name in ("/etc/passwd", "../x", "a/../../x", "..", "a/../..", "\\\\x", "C:\\x", "a/b", "", ".", "a/./b", "a//b"):
-            try:
-                r = sevenzip._safe_join(base, name)
-            except sevenzip.Bad7zFile:
-                continue
-            ab = os.path.abspath(base)
-            if not (r == base or r == ab or r.startswith(ab + os.sep)):
-                return {"reproduced": True, "target": "sevenzip.py::_safe_join", "inputs": {"relative_path": name},
-                        "expected": "path inside base or Bad7zFile", "observed": r}
+        sj = getattr(sevenzip, "_safe_join", None)
+        if sj is not None:
+            for base in (temp_dir, os.path.relpath(temp_dir), temp_dir + "/"):
+                for name in NAMES + (canary, rel):
+                    try:
+                        r = sj(base, name)
+                    except sevenzip.Bad7zFile:
+                        continue
+                    except Exception as e:  # noqa
+                        return {"reproduced": True, "target": "sevenzip.py::_safe_join", "inputs": {"base_dir": base, "relative_path": name},
+                                "expected": "path inside base or Bad7zFile", "observed": f"{type(e).__name__}: {e}"}
+                    if not _real_inside(base, r):
+                        return {"reproduced": True, "target": "sevenzip.py::_safe_join", "inputs": {"base_dir": base, "relative_path": name},
+                                "expected": "path inside base or Bad7zFile", "observed": r}
         # skip rules
-        for fn, bn, want in ((".hidden.txt", ".hidden.txt", True), ("__MACOSX/a.txt", "a.txt", True), ("d/a.zip", "a.zip", True),
-                             ("d/a.tar.gz", "a.tar.gz", True), ("a.exe", "a.exe", True), ("d/a.txt", "a.txt", False), ("A.TXT", "A.TXT", False),
-                             ("x.7Z", "x.7Z", True)):
-            if ae._should_skip_file(fn, bn) != want:
-                return {"reproduced": True, "target": "archive_extractor.py::_should_skip_file", "inputs": {"filename": fn, "basename": bn},
-                        "expected": f"skip == {want}", "observed": f"skip == {not want}"}
+        skip = getattr(ae, "_should_skip_file", None)
+        if skip is not None:
+            table = ((".hidden.txt", ".hidden.txt", True), ("__MACOSX/a.txt", "a.txt", True), ("d/a.zip", "a.zip", True),
+                     ("d/a.tar.gz", "a.tar.gz", True), ("a.exe", "a.exe", True), ("d/a.txt", "a.txt", False), ("A.TXT", "A.TXT", False),
+                     ("x.7Z", "x.7Z", True), ("b.tar.bz2", "b.tar.bz2", True), ("c.TAR.XZ", "c.TAR.XZ", True), ("t.tgz", "t.tgz", True), ("t.tbz2", "t.tbz2", True),
+                     ("t.txz", "t.txz", True), ("t.tar", "t.tar", True), ("docs/r.md", "r.md", False), ("__MACOSX/r.md", "r.md", True), ("e/r.md", "r.md", False),
+                     ("sub/.r.md", ".r.md", True), ("__MACOSX/d/a.txt", "a.txt", True), ("d/a.txt", "a.txt", False))
+            for fn, bn, want in table:
+                try:
+                    got = skip(fn, bn)
+                except Exception as e:  # noqa
+                    got = f"{type(e).__name__}: {e}"
+                if got is not want:
+                    return {"reproduced": True, "target": "archive_extractor.py::_should_skip_file", "inputs": {"filename": fn, "basename": bn},
+                            "expected": f"skip == {want}", "observed": f"skip == {got!r}"}
+    return None
+
+
+def find(req):
     import archive_probe
-    r = archive_probe.oversize_members()
-    if r is not None:
-        return r
-    return {"reproduced": False, "note": "hostile member names could not redirect I/O natively; oversize members (incl. records sharing a name) gave no result"}
+    import C09_probe as P
+    oid = (req or {}).get("obligation") or ""
+    hint = (req or {}).get("extra") or {}
+    first = tuple(hint.get("first", ())) if isinstance(hint, dict) else ()
+    probes = [("function-level", function_level), ("confinement", lambda: P.confinement(first)), ("histories", P.histories), ("skip-rules", P.skip_rules),
+              ("oversize", archive_probe.oversize_members), ("oversize-7z", P.oversize_7z)]
+    pref = []
+    if "skip" in oid:
+        pref = ["function-level", "skip-rules"]
+    elif "oversize" in oid or "size" in oid:
+        pref = ["oversize", "oversize-7z"]
+    elif "temp-dir" in oid:
+        pref = ["histories"]
+    elif "regular" in oid or "file-system" in oid or "fs-confined" in oid or "path" in oid:
+        pref = ["confinement"]
+    probes.sort(key=lambda p: pref.index(p[0]) if p[0] in pref else len(pref))
+    notes = []
+    for name, fn in probes:
+        try:
+            r = fn()
+        except Exception as e:  # noqa  a probe that breaks is not a reproduction
+            import traceback
+            notes.append(f"probe {name} crashed: {traceback.format_exc()[-400:]}")
+            continue
+        if r is not None:
+            r["probe"] = name
+            return r
+    return {"reproduced": False, "note": "hostile member names / member kinds could not redirect I/O natively; temp dir gone after every consumer history; "
+                                         "hidden / nested / unsupported / oversize / non-regular members gave no result", "probe_notes": notes}
 
 
 def rerun(stored):
-    return find({})
+    return find({"obligation": (stored or {}).get("obligation")})
